@@ -337,6 +337,54 @@ func c14Run(c *Ctx, i int, r *gen.R) {
 	}
 }
 
+// c14Long renders one small table hundreds of times through fresh wrappers of alternating formats:
+// whatever a render leaves behind on the table (registered callbacks, properties) must not add up to a visible change.
+func c14Long(c *Ctx, i int, r *gen.R) {
+	t := tabular.New()
+	t.AddHeaders("k1", "k2")
+	t.AddRowItems("a", 1)
+	t.AddSeparator()
+	t.AddRowItems("b\nb", "")
+	rounds := r.Range(150, 400)
+	desc := map[string]interface{}{"renders": rounds, "pattern": "fresh wrappers, formats alternating"}
+	c.Case = desc
+	before := c14Snapshot(t)
+	first := map[string]string{}
+	kinds := []struct {
+		name string
+		f    func() (string, error)
+	}{
+		{"text", func() (string, error) { return texttable.Render(t) }},
+		{"markdown", func() (string, error) { return markdown.Render(t) }},
+		{"csv", func() (string, error) { return csv.Render(t) }},
+		{"json", func() (string, error) { return json.Render(t) }},
+		{"html", func() (string, error) { return html.Wrap(t).Render() }},
+		{"auto:utf8-light", func() (string, error) { return auto.Render(t, "utf8-light") }},
+	}
+	pat := [][]int{{0, 1}, {0, 1, 2}, {1, 0, 5}, {0, 3, 1, 4}}[i%4]
+	for k := 0; k < rounds; k++ {
+		x := kinds[pat[k%len(pat)]]
+		out, err := x.f()
+		c.Rec.Count("renders", 1)
+		if err != nil {
+			c.Rec.Violate("long-sequence:render-fails:"+x.name, fmt.Sprintf("render #%d (%s) of a well-formed table failed: %v", k+1, x.name, err), desc)
+			return
+		}
+		if prev, ok := first[x.name]; ok && prev != out {
+			c.Rec.Violate("output-changes:"+formatClass(x.name), fmt.Sprintf("render #%d (%s) differs from the first %s render", k+1, x.name, x.name), desc)
+			return
+		}
+		first[x.name] = out
+		after := c14Snapshot(t)
+		c.Rec.Count("snapshots_compared", 1)
+		if d := before.diff(&after); d != "" {
+			c.Rec.Violate("state-changes:after-many-renders", fmt.Sprintf("after render #%d (%s, fresh wrapper) the table's observable state changed: %s", k+1, x.name, d), desc)
+			return
+		}
+	}
+	c.Rec.Eval(gen.Hash64("long", fmt.Sprint(i, rounds)), true)
+}
+
 func formatClass(f string) string {
 	if len(f) > 5 && f[:5] == "text:" {
 		return "text"
@@ -349,13 +397,14 @@ func init() {
 		ID:    "C14",
 		Level: "exploration",
 		Rule: "one random table per case (as in C10, with empty and nil cells, half of the tables with unique non-empty headers so that JSON renders, half with a random alignment assignment and half with a random skipable assignment on column 0 and the columns) with user properties placed before the first render on the table, on 2/3 of the columns incl. column 0, on every row, on half of the cells (up to 3 keys each) and on a cell that received 3 properties before it was added (so its chain is shared with the caller's variable), plus one recorded error; then a random sequence of 5-30 renders drawn from 9 non-text renderers (reused and fresh csv/html/json/markdown wrappers, html with cached template, caption and generator) and 2 text renderers per registered decoration (one reused wrapper switched between decorations, auto.Render). " +
-			"Each output must equal the first of its format; after every render the snapshot (NRows, NColumns, every cell's text, item identity and location, row locations, header texts, error list identities) and all user properties must be unchanged, and every (owner, key) over a fixed key set incl. the alignment and skipable keys must read what it read before the first render, set or not. Items created in an earlier state are mutated without Update before the renders: their cells must keep the text they had. Distinct = distinct (table, render sequence); non-trivial = at least 2 formats rendered.",
+			"Each output must equal the first of its format; after every render the snapshot (NRows, NColumns, every cell's text, item identity and location, row locations, header texts, error list identities) and all user properties must be unchanged, and every (owner, key) over a fixed key set incl. the alignment and skipable keys must read what it read before the first render, set or not. Items created in an earlier state are mutated without Update before the renders: their cells must keep the text they had. A second phase renders one small table 150-400 times through fresh wrappers of alternating formats (text/markdown, ...) with the snapshot compared after every render. Distinct = distinct (table, render sequence); non-trivial = at least 2 formats rendered.",
 		Assumptions: []string{
 			"no user callback fails or mutates (the statement's proviso)",
 			"the library's private measurement properties and the number of registered callbacks are not part of the snapshot",
 		},
 		Phases: []Phase{
 			{Name: "random tables x random render sequences", N: Fixed(1000, 300000), Run: c14Run},
+			{Name: "one table rendered 150-400 times through fresh wrappers of alternating formats", N: Fixed(8, 400), Run: c14Long},
 		},
 	})
 }
